@@ -861,3 +861,26 @@ pub fn scenario_layout_total(layout: u8, form: u8, key: u8, mods: u16, mode: boo
     say!(verbose, "layout #{} (form {}) key {:?} mods {:?} mode {:?} -> {:?}", layout, form, k, m, x_mode(mode), r);
     true
 }
+
+/// Panic search over key-event histories deeper than the relational scenarios: eight events on a fresh real EventDecoder
+/// (recording layout), nothing compared - the scenario "fails" only by panicking. Used by the Kani harness `cex::events_deep`
+/// (symbolic events, bounded: <= 8) and by the native replay of the values it finds.
+pub fn scenario_events_deep(mode: bool, ks: [u8; 8], ss: [u8; 8], verbose: bool) -> bool {
+    let h = if mode { HandleControl::MapLettersToUnicode } else { HandleControl::Ignore };
+    let mut d = EventDecoder::new(RecordingLayout(0), h);
+    say!(verbose, "fresh EventDecoder, mode {:?}", h);
+    let mut i = 0;
+    while i < 8 {
+        let st = match ss[i] % 3 {
+            0 => KeyState::Up,
+            1 => KeyState::Down,
+            _ => KeyState::SingleShot,
+        };
+        let k = x_keycode(ks[i] % X_NKEYS);
+        say!(verbose, "process_keyevent({:?}, {:?}) ...", k, st);
+        let r = d.process_keyevent(KeyEvent::new(k, st));
+        say!(verbose, "   -> {:?}", r);
+        i += 1;
+    }
+    true
+}
